@@ -322,7 +322,7 @@ func c19Run(s *Shard) {
 	sampled := false
 	for _, method := range allMethods {
 		for _, subset := range []bool{false, true} {
-			for _, variant := range []int{0, 1, 2, 3, 4, 5} { // observed range, declared range, degenerate c3, strictly negative c1, c3 at 1e-9 scale, never-considered alternatives beyond both ends
+			for _, variant := range []int{0, 1, 2, 3, 4, 5, 6} { // observed range, declared range, degenerate c3, strictly negative c1, c3 at 1e-9 scale, never-considered alternatives beyond both ends
 				root := rootRequest(method, subset, variant == 1)
 				if variant == 2 {
 					for _, a := range asL(root["knownAlternatives"]) {
@@ -337,6 +337,12 @@ func c19Run(s *Shard) {
 				}
 				if variant == 5 {
 					root = wideVariant(root)
+				}
+				if variant == 6 {
+					if method == "choquetIntegral" {
+						continue // the Choquet parser requires the type to be spelled out
+					}
+					root = typelessVariant(root)
 				}
 				for pi, pre := range prefixes {
 					if variant >= 2 && pi > 0 {
